@@ -204,6 +204,13 @@ def run_lookup(case, ctx):
                 pe = a.element
                 others.append(("cloned-parent", Isotope(a.name, a.symbol, Element(pe.name, pe.symbol, pe.atomic_number, pe.atomic_weight),
                                                         a.mass_number, a.atomic_weight)))
+            # near twins: every field equal except an atomic weight one ulp away.  Whether they count as equal is the class's
+            # business - but == / != / hash must agree about it
+            import math as _math
+            for direction in (_math.inf, -_math.inf):
+                w = _math.nextafter(a.atomic_weight, direction)
+                others.append(("ulp-twin", Element(a.name, a.symbol, a.atomic_number, w) if type(a) is Element
+                               else Isotope(a.name, a.symbol, a.element, a.mass_number, w)))
             for how, o in others:
                 if o == a:
                     ctx.check(a == o and not (o != a) and not (a != o), "eq-copy", "%s copy of %s: == and != disagree" % (how, an))
@@ -268,6 +275,10 @@ def run_line(case, ctx):
         q = min(t[1], el.atomic_number - 1)
         return (el, q, _TR[t[2]]), Line(el, q, tuple(_TR[t[2]]))
     (ka, la), (kb, lb) = mk(case["a"]), mk(case["b"])
+    # a line keeps the very species, charge and transition it was given (a line of protium is not a line of hydrogen)
+    for k_, l_ in ((ka, la), (kb, lb)):
+        ctx.check(l_.element is k_[0] and l_.charge == k_[1] and tuple(l_.transition) == tuple(k_[2]), "line-fields",
+                  lambda: "Line(%s, %r, %r) holds element %r, charge %r, transition %r" % (k_[0].name, k_[1], k_[2], l_.element, l_.charge, l_.transition))
     same = (ka[0] is kb[0]) and ka[1] == kb[1] and tuple(ka[2]) == tuple(kb[2])
     ctx.nt()
     ctx.label("equal" if same else "distinct")
